@@ -32,8 +32,26 @@ pub broadcast proof fn axiom_string_eq_refstr<'a>(a: &String, b: &&'a str)
 pub broadcast proof fn axiom_string_eq_refstr_obeys<'a>()
     ensures #[trigger] <String as vstd::std_specs::cmp::PartialEqSpec<&'a str>>::obeys_eq_spec(),
 {}
+#[verifier::external_body]
+pub broadcast proof fn axiom_string_eq_string(a: &String, b: &String)
+    ensures #[trigger] vstd::std_specs::cmp::PartialEqSpec::<String>::eq_spec(a, b) == (a@ == b@),
+{}
+#[verifier::external_body]
+pub broadcast proof fn axiom_string_eq_string_obeys()
+    ensures #[trigger] <String as vstd::std_specs::cmp::PartialEqSpec<String>>::obeys_eq_spec(),
+{}
+#[verifier::external_body]
+pub broadcast proof fn axiom_refstring_eq_refstring<'a, 'b>(a: &&'a String, b: &&'b String)
+    ensures #[trigger] vstd::std_specs::cmp::PartialEqSpec::<&'b String>::eq_spec(a, b) == (a@ == b@),
+{}
+#[verifier::external_body]
+pub broadcast proof fn axiom_refstring_eq_refstring_obeys<'a, 'b>()
+    ensures #[trigger] <&'a String as vstd::std_specs::cmp::PartialEqSpec<&'b String>>::obeys_eq_spec(),
+{}
 pub broadcast group group_string_eq {
+    axiom_refstring_eq_refstring, axiom_refstring_eq_refstring_obeys,
     axiom_string_eq_str, axiom_string_eq_str_obeys, axiom_string_eq_refstr, axiom_string_eq_refstr_obeys,
+    axiom_string_eq_string, axiom_string_eq_string_obeys,
 }
 } // verus!
 // Rust: a slice never has more than isize::MAX elements (trusted; vstd only states it after an exec len()).
